@@ -421,7 +421,9 @@ class Check:
         cov.update({k: v for k, v in self.extra.items() if k != "rule"})
         ev = {"property_id": self.pid, "tier": self.tier, "seed": self.seed, "level": self.level, "coverage": cov,
               "assumptions": TRUSTED_BASE_COMMON + self.assumptions, "wall_s": round(time.time() - self.t0, 2), "violations": nviol}
-        os.makedirs(os.path.join(V, "evidence"), exist_ok=True)
-        tmp = os.path.join(V, "evidence", self.pid + ".json.tmp")
+        # a development run without the proof step (bin/vcheck --no-prove) is not a record of the check: it is written aside
+        edir = os.path.join(V, "evidence") if self.proof is not None else os.path.join(CACHE, "evidence-no-prove")
+        os.makedirs(edir, exist_ok=True)
+        tmp = os.path.join(edir, self.pid + ".json.tmp")
         json.dump(ev, open(tmp, "w"), indent=1, default=str)
-        os.replace(tmp, os.path.join(V, "evidence", self.pid + ".json"))
+        os.replace(tmp, os.path.join(edir, self.pid + ".json"))
